@@ -155,6 +155,8 @@ type generator struct {
 // node returns the Gonum node corresponding to the given dot AST node ID,
 // generating a new such node if none exist.
 func (gen *generator) node(dst graph.NodeAdder, id string) graph.Node {
+	// An ID and the same ID in double quotes name one node.
+	id = unquoteID(id)
 	if n, ok := gen.ids[id]; ok {
 		if gen.isInSubgraph() {
 			// A node that already exists is still a member of the
@@ -165,7 +167,7 @@ func (gen *generator) node(dst graph.NodeAdder, id string) graph.Node {
 	}
 	n := dst.NewNode()
 	if n, ok := n.(DOTIDSetter); ok {
-		n.SetDOTID(unquoteID(id))
+		n.SetDOTID(id)
 	}
 	dst.AddNode(n)
 	gen.ids[id] = n
